@@ -4,7 +4,8 @@ cd "$(dirname "$0")/.."
 for spec in "RFa C04 C05 C08 C03 C07 C06" "RFb C06 C07 C03 C08 C04" "RFc C11 C15 C13 C14 C01 C12"; do
   set -- $spec; rf=$1; shift
   wt=/tmp/wt_$rf
-  git -C /repo worktree add --detach $wt HEAD -q || continue
+  base=HEAD; [ "$rf" = RFa ] && base=f983e87     # RFa was written against the tree before the receive-worker fix (615237c)
+  git -C /repo worktree add --detach $wt $base -q || continue
   (cd $wt && git apply /verif/tools/refactors/$rf.diff) || { echo "$rf PATCH DOES NOT APPLY" >> .work/rf.txt; git -C /repo worktree remove --force $wt; continue; }
   for p in "$@"; do
     VF_REPO=$wt timeout 1500 bin/check $p --no-evidence > .work/rf_${rf}_$p.log 2>&1
